@@ -468,3 +468,197 @@ Proof.
       { intros a' Ha'. unfold s1. cbn [set_arr m_arr]. unfold upd_nat. apply Nat.eqb_neq in Ha'. rewrite Ha'. reflexivity. }
       { constructor; reflexivity. }
 Qed.
+
+(* ------------------------------------------------------------------ one flush block *)
+Lemma declare_all_other : forall ds ar a, ~ In a (map addr ds) -> alookup a (declare_all ds ar) = alookup a ar.
+Proof.
+  induction ds as [|d ds IH]; intros ar a H; cbn; [reflexivity|].
+  rewrite IH by (intro X; apply H; right; exact X). apply alookup_aset_other. intro X. apply H. left. symmetry. exact X.
+Qed.
+Lemma declare_all_in : forall ds ar d, NoDup (map addr ds) -> In d ds ->
+  alookup (addr d) (declare_all ds ar) = Some (decl_content d).
+Proof.
+  induction ds as [|d0 ds IH]; intros ar d ND Hin; [destruct Hin|]. cbn in ND. inversion ND; subst. cbn.
+  destruct Hin as [->|Hin].
+  - rewrite declare_all_other by assumption. apply alookup_aset_same.
+  - apply IH; assumption.
+Qed.
+Lemma decl_content_len : forall d, decl_wf d -> List.length (decl_content d) = snd (fst d).
+Proof. intros [[a n] [l|]] W; cbn in *; [destruct W; congruence|apply repeat_length]. Qed.
+
+Lemma alook_dl : forall ds rest a n,
+  alook a (map dl ds ++ rest) = Some n ->
+  (exists d, In d ds /\ addr d = a /\ snd (fst d) = n) \/ (~ In a (map addr ds) /\ alook a rest = Some n).
+Proof.
+  induction ds as [|d ds IH]; intros rest a n H; cbn in *; [right; auto|].
+  destruct (Nat.eqb a (fst (fst d))) eqn:E.
+  - apply Nat.eqb_eq in E. inv_ok H. left. exists d. unfold addr. auto.
+  - apply Nat.eqb_neq in E. destruct (IH _ _ _ H) as [(d' & I' & A' & N')|[Hn Hr]].
+    + left. exists d'. auto.
+    + right. split; [|exact Hr]. intros [X|X]; [unfold addr in X; congruence|contradiction].
+Qed.
+
+Lemma dwf_nodup : forall ds n n', dwf ds n n' -> NoDup (map addr ds) /\ (forall a, In a (map addr ds) -> n <= a).
+Proof.
+  intros ds n n' (A & _ & _). unfold addr. rewrite A. split; [apply seq_NoDup|].
+  intros a H. apply in_seq in H. lia.
+Qed.
+
+Record BlockStart (st : lst) : Prop := mkBS {
+  bs_lv : l_lv st = []; bs_decl : l_decl st = []; bs_ret : l_ret st = [];
+  bs_rf : forall r m, alook r (l_rf st) <> Some (Rg BM m)
+}.
+Definition TRel (st : lst) (e : est) (s : mst) : Prop :=
+  Rel (l_len st) st e s /\ fresh_above (l_next st) (e_arr e).
+
+Lemma rets_exec : forall (ds : list arrdecl) (rs : list reg) s,
+  (forall d, In d ds -> m_arr s (fst (fst d)) <> None) -> (forall g, In g rs -> m_reg s g <> None) ->
+  sx (map (fun d : arrdecl => XI (IRetArr (fst (fst d)))) ds ++ map (fun m => XI (IRetReg m)) rs) s s.
+Proof.
+  induction ds as [|d ds IH]; intros rs s Ha Hr; cbn.
+  - induction rs as [|g rs IHr]; cbn; [apply sx_nil|].
+    eapply sx_cons; [apply sx_I|apply IHr; intros; apply Hr; right; assumption].
+    cbn [exec_instr]. destruct (m_reg s g) eqn:E; [reflexivity|]. exfalso. apply (Hr g); [left; reflexivity|exact E].
+  - eapply sx_cons; [apply sx_I|apply IH; [intros; apply Ha; right; assumption|exact Hr]].
+    cbn [exec_instr]. destruct (m_arr s (fst (fst d))) eqn:E; [reflexivity|]. exfalso. apply (Ha d); [left; reflexivity|exact E].
+Qed.
+
+Definition stale1 (g : reg) : reg := match g with Rg BM _ => STALE | _ => g end.
+Lemma alook_stale : forall l r, alook r (stale_rf l) = option_map stale1 (alook r l).
+Proof.
+  induction l as [|[k v] l IH]; intro r; cbn; [reflexivity|].
+  destruct v as [[] i]; cbn; destruct (Nat.eqb r k); cbn; auto.
+Qed.
+
+Lemma stale1_not_M : forall g m, stale1 g <> Rg BM m.
+Proof. intros [[] i] m; cbn; discriminate. Qed.
+
+Lemma Inv_reset : forall st, Inv st -> l_lv st = [] -> Inv (reset_block st) /\ BlockStart (reset_block st).
+Proof.
+  intros st [A B C C' D E F G] Hl.
+  assert (NoM : forall r m, alook r (stale_rf (l_rf st)) <> Some (Rg BM m)).
+  { intros r m H. rewrite alook_stale in H. destruct (alook r (l_rf st)) as [g|]; cbn in H; [|discriminate].
+    inv_ok H. eapply stale1_not_M; eauto. }
+  split.
+  - apply mkInv; cbn [reset_block l_lv l_act l_rf l_ret l_mused l_q l_len l_next]; try assumption.
+    + intros r m H. exfalso. eapply NoM; eauto.
+    + intros r g H. rewrite alook_stale in H. destruct (alook r (l_rf st)) as [g0|] eqn:Eg; cbn in H; [|discriminate].
+      inv_ok H. destruct (C _ _ Eg) as [(m & ->)| ->]; right; reflexivity.
+    + intros r r' m H. exfalso. eapply NoM; eauto.
+    + intros g [].
+  - constructor; cbn; auto.
+Qed.
+
+Lemma init_code_sba : forall ds P st Pf stf, init_code ds P st = Ok (Pf, stf) -> sba st stf /\ l_act stf = l_act st.
+Proof.
+  induction ds as [|[[a n] init] ds IH]; intros P st Pf stf H; cbn [init_code] in H.
+  - inv_ok H. split; [apply sba_refl|reflexivity].
+  - destruct init as [l|]; [|eapply IH; eauto].
+    destruct (loopopt l); [|eapply IH; eauto].
+    destruct (take st) as [[t s1]|] eqn:Ht; cbn [bind] in H; [|discriminate].
+    destruct (IH _ _ _ _ H) as [S A]. split.
+    + eapply sba_trans; [eapply sba_take; eauto|]. eapply sba_trans; [apply sba_release|exact S].
+    + rewrite A. assert (G := good_bracket st t s1 s1 0 Ht (good_refl _ _)). exact (proj1 G).
+Qed.
+
+Lemma alook_app_notin : forall (ds : list arrdecl) rest a,
+  ~ In a (map addr ds) -> alook a (map dl ds ++ rest) = alook a rest.
+Proof.
+  induction ds as [|d ds IH]; intros rest a H; cbn; [reflexivity|].
+  destruct (Nat.eqb a (fst (fst d))) eqn:E.
+  - apply Nat.eqb_eq in E. exfalso. apply H. left. unfold addr. congruence.
+  - apply IH. intro X. apply H. right. exact X.
+Qed.
+Lemma alook_dl_in : forall (ds : list arrdecl) rest a,
+  In a (map addr ds) -> alook a (map dl ds ++ rest) <> None.
+Proof.
+  induction ds as [|d ds IH]; intros rest a H; cbn; [destruct H|].
+  destruct (Nat.eqb a (fst (fst d))) eqn:E; [discriminate|].
+  apply IH. destruct H as [X|X]; [|exact X]. apply Nat.eqb_neq in E. unfold addr in X. congruence.
+Qed.
+Lemma in_addr_rev : forall (ds : list arrdecl) a, In a (map addr (rev ds)) <-> In a (map addr ds).
+Proof. intros ds a. rewrite map_rev. split; intro H; [apply in_rev; exact H|apply in_rev in H; exact H]. Qed.
+
+Lemma Rel_snap : forall L st e s, Rel L st e s -> Rel L st (snap e) s.
+Proof. intros L st e s [A B C D E F G HH II J K RD1 RD2]. constructor; cbn; assumption. Qed.
+
+Lemma block_step : forall seg st0 c st1 blk st2 e0 e1 s0,
+  bwfs seg = true -> Inv st0 -> BlockStart st0 -> TRel st0 e0 s0 ->
+  lower_block true seg st0 = Ok (c, st1) -> lower_flush c st1 = Ok (blk, st2) ->
+  eval_block seg (with_arr e0 (hoist_block seg (e_arr e0))) = Some e1 ->
+  exists s2, (match blk with Some code => sx code s0 s2 | None => s2 = s0 end) /\
+             Inv st2 /\ BlockStart st2 /\ TRel st2 (snap e1) s2.
+Proof.
+  intros seg st0 c st1 blk st2 e0 e1 s0 Hw I0 [Blv Bdecl Bret Brf] [HR HF] Hl Hfl Hev.
+  destruct (proj2 wfs_plain seg Hw) as [Hp He].
+  destruct (proj2 lower_facts seg Hp He _ _ _ Hl I0) as [I1 X1].
+  destruct (proj2 hoist_facts seg Hw _ _ _ (e_arr e0) Hl HF) as (ds & D1 & H1 & F1 & W1 & Ln1).
+  rewrite Bdecl in D1. cbn [app] in D1. rewrite H1 in Hev.
+  destruct (dwf_nodup _ _ _ W1) as [NDa Ha_ge]. destruct W1 as (_ & _ & Wf).
+  unfold lower_flush in Hfl.
+  destruct (init_code (l_decl st1) [] st1) as [[P st1']|] eqn:Hin; cbn [bind] in Hfl; [|discriminate].
+  destruct (init_code_sba _ _ _ _ _ Hin) as [S1 A1].
+  assert (IO : InitOK P ds).
+  { rewrite D1 in Hin. apply (init_exec ds [] [] st1 P st1' Hin); [|exact Wf|exact NDa].
+    intro s. exists s. split; [apply sx_nil|]. split; [reflexivity|apply same_ctl_refl]. }
+  destruct (IO s0) as (si & Xi & Ai & [Ci1 Ci2 Ci3 Ci4 Ci5]).
+  set (e0h := with_arr e0 (declare_all ds (e_arr e0))) in *.
+  set (L := l_len st1).
+  assert (Arr_i : forall a, m_arr si a = alookup a (declare_all ds (e_arr e0))).
+  { intro a. rewrite Ai. apply marr_declare_all. intro a'. apply (r_arr _ _ _ _ HR). }
+  assert (Rh : Rel L st0 e0h si).
+  { destruct HR as [A B C D E F G HH II J K RD1 RD2]. apply mkRel; cbn [e0h with_arr e_arr e_reg e_lv e_q e_n e_script e_trace].
+    - exact Arr_i.
+    - intros a n Hn. unfold L in Hn. rewrite Ln1 in Hn. destruct (alook_dl _ _ _ _ Hn) as [(d & Hd & Ead & En)|[Hni Hr]].
+      + apply in_rev in Hd. exists (decl_content d). subst a. split; [apply declare_all_in; assumption|].
+        rewrite decl_content_len; [exact En|]. rewrite Forall_forall in Wf. apply Wf. exact Hd.
+      + rewrite declare_all_other by (intro X; apply Hni; apply in_addr_rev; exact X). eauto.
+    - intros q id Hq. rewrite Ci1, Ci2. eauto.
+    - exact D.
+    - intros id Hn. rewrite Ci1. eauto.
+    - exact F.
+    - intros r m Hr. exfalso. eapply Brf; eauto.
+    - rewrite Blv. intros; discriminate.
+    - congruence.
+    - congruence.
+    - congruence.
+    - intros r m Hr. exfalso. eapply Brf; eauto.
+    - intros a Ha. unfold L. rewrite Ln1. destruct (in_dec Nat.eq_dec a (map addr ds)) as [Hin'|Hni].
+      + apply alook_dl_in. apply in_addr_rev. exact Hin'.
+      + rewrite alook_app_notin by (intro X; apply Hni; apply in_addr_rev; exact X).
+        apply RD2. rewrite declare_all_other in Ha by exact Hni. exact Ha. }
+  destruct (block_compile_correct seg L st0 c st1 e0h e1 si Hw Hl I0 (sub_refl _ _) Hev Rh) as (s1 & Xc & R1).
+  (* ret_arr / ret_reg do not fault *)
+  assert (Xr : sx (map (fun d : arrdecl => XI (IRetArr (fst (fst d)))) (l_decl st1) ++
+                   map (fun m => XI (IRetReg m)) (l_ret st1)) s1 s1).
+  { apply rets_exec.
+    - intros d Hd. rewrite D1 in Hd. rewrite (r_arr _ _ _ _ R1).
+      assert (HaL : alook (addr d) L <> None).
+      { unfold L. rewrite Ln1. apply alook_dl_in. apply in_addr_rev. apply in_map. exact Hd. }
+      destruct (alook (addr d) L) as [n|] eqn:En; [|contradiction].
+      destruct (r_len _ _ _ _ R1 _ _ En) as (l & Hl' & _). unfold addr in Hl'. rewrite Hl'. discriminate.
+    - intros g Hg. destruct (i_ret _ I1 _ Hg) as (r & m & -> & Hr).
+      assert (Hd := r_rfdef _ _ _ _ R1 _ _ Hr). destruct (alookup r (e_reg e1)) as [z|] eqn:Ez; [|contradiction].
+      rewrite (r_rf _ _ _ _ R1 _ _ Hr _ Ez). discriminate. }
+  assert (Xfull : sx (P ++ c ++ map (fun d : arrdecl => XI (IRetArr (fst (fst d)))) (l_decl st1) ++
+                      map (fun m => XI (IRetReg m)) (l_ret st1)) s0 s1).
+  { eapply sx_app; [exact Xi|]. eapply sx_app; [exact Xc|exact Xr]. }
+  inv_ok Hfl.
+  assert (I1' : Inv st1') by (eapply Inv_sba; eauto).
+  destruct S1 as (S1m & S1q & S1n & S1r & S1f & S1v & S1l & S1d).
+  assert (Lv1' : l_lv st1' = []) by (rewrite S1v, (x_lv _ _ X1); exact Blv).
+  destruct (Inv_reset st1' I1' Lv1') as [I2 B2].
+  exists s1. split.
+  { destruct (is_nil _) eqn:En; [|exact Xfull].
+    match type of En with is_nil ?l = true => destruct l; [|discriminate] end.
+    eapply sx_nil_inv. exact Xfull. }
+  split; [exact I2|]. split; [exact B2|]. split.
+  - cbn [reset_block l_len]. rewrite S1l. apply Rel_snap. eapply Rel_st; [exact R1| | |].
+    + cbn. exact S1q.
+    + cbn. rewrite Lv1'. intros; discriminate.
+    + intros r m Hr. exfalso. eapply (bs_rf _ B2); eauto.
+  - cbn [reset_block l_next snap e_arr]. rewrite S1n. intros a Ha.
+    destruct (alookup a (e_arr e1)) as [l|] eqn:El; [|reflexivity]. exfalso.
+    assert (Hd : alook a L <> None) by (apply (r_dom _ _ _ _ R1); congruence).
+    destruct (alook a L) as [n|] eqn:En; [|contradiction]. apply (i_len _ I1) in En. lia.
+Qed.
